@@ -121,7 +121,7 @@ Inductive cmd :=
 | CApplyComp (from : option peer) (e : ent) (u : uuid) (t : tyid) (v : value)
                                                   (* apply_component_change_from_network; host (from = Some c): relay if changed *)
 | CSetParentSrv (from : peer) (c p : uuid)
-| CSetParentCli (c p : ent)
+| CSetParentCli (c p : ent) (cu pu : uuid)
 | CApplyMaterial (from : option peer) (a : uuid) (v : N)
 | CRelay (from : peer) (m : msg)
 | CSendInitialSync (to : peer)
